@@ -404,6 +404,13 @@ class SourceHandler:
             DirectiveType.PROMPT_PDU,
         ]:
             raise InvalidPduForSourceHandler(packet)
+        if (
+            packet.directive_type == DirectiveType.ACK_PDU
+            and PduHolder(packet).to_ack_pdu().directive_code_of_acked_pdu
+            != DirectiveType.EOF_PDU
+        ):
+            # Only the ACK of the EOF PDU is targeted towards the file sender.
+            raise InvalidPduForSourceHandler(packet)
         if self._params.transmission_mode == TransmissionMode.UNACKNOWLEDGED and (
             packet.directive_type in (DirectiveType.KEEP_ALIVE_PDU, DirectiveType.NAK_PDU)
         ):
